@@ -90,6 +90,9 @@ def make_case(rnd, i):
     return g, q, stages, naming, mf
 
 
+OPERATOR_FUNCTIONS = {"Select", "Where", "SelectMany", "First", "Count", "Aggregate"}
+
+
 def check_one(ctx, q, data, info, classify=True):
     """Run the simplifier on a copy of q under the monitor. Returns the list of problems."""
     from func_adl.ast.function_simplifier import simplify_chained_calls
@@ -118,8 +121,10 @@ def check_one(ctx, q, data, info, classify=True):
         ctx.count("rule:" + r)
     problems = []
     fn_out = astx.free_names(out)
-    if not fn_out <= fn_in:
-        problems.append(("free-name-introduced", f"free names {sorted(fn_out - fn_in)} appear in the output"))
+    # (the simplifier may introduce function-form operators of its own, e.g. First(x).a -> First(Select(x, ...)): operator
+    # names are not variables)
+    if not (fn_out - OPERATOR_FUNCTIONS) <= fn_in:
+        problems.append(("free-name-introduced", f"free names {sorted(fn_out - fn_in - OPERATOR_FUNCTIONS)} appear in the output"))
     after = [evaluate(out, d, GLOB) for d in data]
     for di, (b, a) in enumerate(zip(before, after)):
         if b[0] == "ok" and a != b:
@@ -155,7 +160,7 @@ def classify(q, data):
         except Exception:
             return False
         after = [evaluate(out, d, GLOB) for d in data]
-        if not astx.free_names(out) <= astx.free_names(qq):
+        if not (astx.free_names(out) - OPERATOR_FUNCTIONS) <= astx.free_names(qq):
             return True
         return any(b[0] == "ok" and a != b for b, a in zip(before, after))
 
